@@ -2,7 +2,6 @@ INIT Init
 NEXT Next
 CONSTANTS
   MaxLen = 80
-  MaxOps = 10
 VIEW View
 ACTION_CONSTRAINT EmitEdge
 INVARIANT P09_CallerIntact
